@@ -141,8 +141,12 @@ theorem select_true (a b : α) : VScalar.select true a b = a := rfl
 theorem select_false (a b : α) : VScalar.select false a b = b := rfl
 
 /-- the mask-generic sRGB curves at a scalar type are the curves of `Color/Transfer.lean` (C05) -/
-theorem srgbIntoLinear_scalar (x : α) : Simd.srgbIntoLinear x = Transfer.srgbIntoLinear x := by
+theorem srgbIntoLinear_scalar (hfma : ∀ x m a : α, Scalar.mulAdd x m a = x * m + a) (x : α) :
+    Simd.srgbIntoLinear x = Transfer.srgbIntoLinear x := by
+  -- `mul_add` is the one operation where the scalar float types differ from the `wide` types by *rounding* (fused for f32/f64, `(x*m)+a` for
+  -- wide without the fma target feature): the identity holds for every interpretation in which `mul_add` is `x*m+a` (ℝ, ℚ, wide lanes)
   unfold Simd.srgbIntoLinear Transfer.srgbIntoLinear
+  rw [hfma]
   exact lazySelect_bool _ _ _
 theorem srgbFromLinear_scalar (x : α) : Simd.srgbFromLinear x = Transfer.srgbFromLinear x := by
   unfold Simd.srgbFromLinear Transfer.srgbFromLinear
@@ -164,8 +168,9 @@ theorem yxyToXyz_scalar (c : V3 α) : Simd.yxyToXyz c = Cie.yxyToXyz c :=
   v3_ite_mul (Scalar.isValidDivisor c.c1) _ _ _ _ _ _
 
 /-- **each SIMD lane = the scalar function**, for the functions shared with the other modules: `n` lanes of any `Scalar` -/
-theorem srgbIntoLinear_lanes_eq_scalar {n : Nat} (v : Lanes n α) (i : Fin n) : (Simd.srgbIntoLinear v) i = Transfer.srgbIntoLinear (v i) := by
-  rw [srgbIntoLinear_lane, srgbIntoLinear_scalar]
+theorem srgbIntoLinear_lanes_eq_scalar (hfma : ∀ x m a : α, Scalar.mulAdd x m a = x * m + a) {n : Nat} (v : Lanes n α) (i : Fin n) :
+    (Simd.srgbIntoLinear v) i = Transfer.srgbIntoLinear (v i) := by
+  rw [srgbIntoLinear_lane, srgbIntoLinear_scalar hfma]
 theorem srgbFromLinear_lanes_eq_scalar {n : Nat} (v : Lanes n α) (i : Fin n) : (Simd.srgbFromLinear v) i = Transfer.srgbFromLinear (v i) := by
   rw [srgbFromLinear_lane, srgbFromLinear_scalar]
 theorem xyzToYxy_lanes_eq_scalar {n : Nat} (cs : Fin n → V3 α) (i : Fin n) : unpack (Simd.xyzToYxy (pack cs)) i = Cie.xyzToYxy (cs i) := by
